@@ -33,7 +33,9 @@ class LogixScenario:
         pol.accept_large_fo = large
         routes = {((1, slot),): self.dev}
         if micro:
-            routes[()] = self.dev
+            # a Micro800 has no backplane: it is reached with an empty route only, a hop through port 1 does not exist
+            # (the library strips "bp/0" once ListIdentity has told it what it is talking to)
+            routes = {(): self.dev}
         self.target = rt.RefTarget(rng, front=self.dev, routes=routes, policy=pol, log=self.b.log)
         self.b.set_target(self.target)
         # Termination budget of one public call (socket operations, see FakeNet.op): finite, but sized for the largest legitimate
